@@ -735,6 +735,9 @@ class Tracer(object):
         self.ncode = 0
         self.installed = False
         self.sites = set()
+        self.gran = "line"
+        self.codes = []
+        self.instr_events = 0
 
     def install(self, pkg_dir):
         mon = sys.monitoring
@@ -742,6 +745,7 @@ class Tracer(object):
             return self.ncode
         mon.use_tool_id(self.TOOL, "vf")
         mon.register_callback(self.TOOL, mon.events.LINE, self.on_line)
+        mon.register_callback(self.TOOL, mon.events.INSTRUCTION, self.on_instruction)
         seen = set()
 
         def walk(c):
@@ -759,9 +763,41 @@ class Tracer(object):
                 walk(o.__code__)
         for c in seen:
             mon.set_local_events(self.TOOL, c, mon.events.LINE)
+        self.codes = list(seen)
         self.ncode = len(seen)
         self.installed = True
         return self.ncode
+
+    def set_granularity(self, gran):
+        """'line' (default): placements are statement boundaries.  'instr': placements are bytecode
+        instruction boundaries of library code (reaches windows inside one statement, e.g. between the
+        evaluation of a right-hand side and the store)."""
+        if gran == self.gran:
+            return
+        mon = sys.monitoring
+        ev = mon.events.LINE | (mon.events.INSTRUCTION if gran == "instr" else 0)
+        for c in self.codes:
+            mon.set_local_events(self.TOOL, c, ev)
+        self.gran = gran
+
+    def on_instruction(self, code, offset):
+        if self.gran != "instr":
+            return
+        arms = self.arms
+        if not arms:
+            return
+        st = getattr(tls, "st", None)
+        if st is None:
+            st = _state()
+        a = arms.get(st.role)
+        if a is not None:
+            self.instr_events += 1
+            n = a.n
+            a.n = n + 1
+            if a.trace is not None:
+                a.trace.append((os.path.basename(code.co_filename), code.co_name, "+%d" % offset))
+            if n == a.pause_k:
+                self._pause(a, code, "+%d" % offset)
 
     def on_line(self, code, line):
         self.line_events += 1
@@ -769,7 +805,7 @@ class Tracer(object):
         if st is None:
             st = _state()
         arms = self.arms
-        if arms:
+        if arms and self.gran == "line":
             a = arms.get(st.role)
             if a is not None:
                 n = a.n
@@ -948,6 +984,7 @@ def counters():
         "tracked_threads": TrackedThread.created,
         "events_created": EventFactory.created,
         "boundary_events_logged": LOG.total,
+        "instruction_events": TR.instr_events,
     }
 
 
@@ -955,6 +992,8 @@ def reset_case():
     """Forget everything about the previous case."""
     TR.disarm()
     TR.set_fuzz(0.0)
+    if TR.installed:
+        TR.set_granularity("line")
     release_all_waiters()
     with MU:
         # threads that survive their case (e.g. the library's process-wide helper
